@@ -13,7 +13,7 @@ RULE = ('(a) flat: every numeric operator x (boundary pool x boundary pool, exha
         'evaluations only, in gcc and clang builds with -fsanitize=undefined,address(,float-cast-overflow) -fno-sanitize-recover: '
         'the result must equal the interpreter and no report may appear; (b) modules from the expr / ctrl / calls / mem / inst generators with scripts reduced to NON-trapping, in-bounds calls '
         '(trapping calls are removed and the model re-run), plus a names generator (exotic import/export/function names). Each '
-        'module is translated once and built under cells of the matrix {gcc, clang} x {-O0,-O1,-O2,-O3} x {-std=gnu89, default} x '
+        'module is translated once and built under cells of the matrix {gcc, clang} x {-O0,-O1,-O2,-O3} x {-std=gnu89, default; plus gnu99 / gnu11 / gnu2x cells} x '
         '{plain, -fsanitize=undefined,address,float-cast-overflow -fno-sanitize-recover}; quick: 6 cells per module chosen '
         'round-robin so that every run covers the whole matrix, thorough: all 32 cells. Oracle: no compile error, no sanitizer '
         'report / non-zero exit, every build prints exactly the interpreter transcript (hence identical across builds). '
@@ -30,6 +30,11 @@ for _cc in ('gcc', 'clang'):
         for _std in ((), ('-std=gnu89',)):
             for _san in ((), tuple(SAN)):
                 CELLS.append((_cc, (_o,) + _std + _san))
+# "GNU-dialect C89 and later": the later language levels as well (C99 inline semantics, C11, C2x keywords such as bool / true / false
+# becoming reserved words), a few cells each
+for _cc in ('gcc', 'clang'):
+    for _o, _std in (('-O0', '-std=gnu99'), ('-O2', '-std=gnu11'), ('-O1', '-std=gnu2x'), ('-O2', '-std=gnu99'), ('-O0', '-std=gnu2x')):
+        CELLS.append((_cc, (_o, _std)))
 MAKERS = ['c02_expr', 'c03_ctrl', 'c04_calls', 'c05_history', 'c06_inst', 'c11_names', 'c03_ctrl']
 
 HAZ = ('signbit', 'count>=width', 'carry', 'truncboundary', 'div-1', 'dividendMIN')
